@@ -1,8 +1,10 @@
 package c11
 
 import (
+	"bytes"
 	"errors"
 	"fmt"
+	"github.com/pinealctx/neptune/tex"
 	"io"
 )
 
@@ -21,7 +23,24 @@ type srcSpec struct {
 	zeroAt   int  // >= 0: at this stream position, zeros calls return (0, nil) first
 	zeros    int
 	negAt    int // >= 0: at this stream position Read returns a negative count
+	endKind  int // how the end of the data is reported: 0 io.EOF, 1 an error wrapping io.EOF, 2 io.ErrUnexpectedEOF, 3 an error whose Is(io.EOF) is true
+	// nested: after every delivery the reader (as a real source might) feeds nestedData into
+	// another, small buffer of the same implementation through that buffer's ReadFrom - while
+	// the outer ReadFrom is still in progress
+	nested bool
 }
+
+var (
+	errWrappedEOF = fmt.Errorf("src: stream ended early: %w", io.EOF)
+	errIsEOF      = isEOFError{}
+)
+
+type isEOFError struct{}
+
+func (isEOFError) Error() string        { return "src: custom end marker" }
+func (isEOFError) Is(target error) bool { return target == io.EOF }
+
+var nestedData = []byte("NESTED-nested-NESTED-nested-0123456789-NESTED-nested")
 
 func (s *srcSpec) String() string {
 	t := fmt.Sprintf("src{data=%s", fmtBytes(s.data))
@@ -40,17 +59,38 @@ func (s *srcSpec) String() string {
 	if s.negAt >= 0 {
 		t += fmt.Sprintf(" negativeCountAt=%d", s.negAt)
 	}
+	if s.endKind > 0 {
+		t += " end=" + []string{"EOF", "wrapped-EOF", "ErrUnexpectedEOF", "Is(EOF)-error"}[s.endKind]
+	}
+	if s.nested {
+		t += " nested-ReadFrom-into-sibling"
+	}
 	return t + "}"
 }
 
 type src struct {
-	spec  *srcSpec
-	pos   int
-	zeros int
-	calls int
+	spec       *srcSpec
+	pos        int
+	zeros      int
+	calls      int
+	sib        buffer // nested mode: the other buffer fed from inside Read
+	nestedDone bool
 }
 
 func (s *srcSpec) reader() *src { return &src{spec: s, zeros: s.zeros} }
+
+// readerFor: like reader, with a sibling buffer of the same implementation as b for the nested mode.
+func (s *srcSpec) readerFor(b buffer) *src {
+	r := s.reader()
+	if s.nested {
+		if _, isTex := b.(*tex.Buffer); isTex {
+			r.sib = tex.NewSizedBuffer(8)
+		} else {
+			r.sib = bytes.NewBuffer(make([]byte, 0, 8))
+		}
+	}
+	return r
+}
 
 func (r *src) Read(p []byte) (int, error) {
 	sp := r.spec
@@ -63,7 +103,7 @@ func (r *src) Read(p []byte) (int, error) {
 		return 0, nil
 	}
 	end := len(sp.data)
-	var endErr error = io.EOF
+	var endErr error = []error{io.EOF, errWrappedEOF, io.ErrUnexpectedEOF, errIsEOF}[sp.endKind]
 	if sp.failAt >= 0 && sp.failAt <= end {
 		end = sp.failAt
 		endErr = errSrc
@@ -86,6 +126,11 @@ func (r *src) Read(p []byte) (int, error) {
 	}
 	copy(p, sp.data[r.pos:r.pos+n])
 	r.pos += n
+	if r.sib != nil && !r.nestedDone {
+		// once, right after the first delivery (how often a ReadFrom calls Read is up to it)
+		r.nestedDone = true
+		r.sib.ReadFrom(bytes.NewReader(nestedData))
+	}
 	if r.pos == end && sp.together {
 		return n, endErr
 	}
